@@ -94,6 +94,26 @@ CLAIMED = {
             "changes must keep the instant.",
             "Histories are generated by the harness PRNG, not by TLC (deviation from DESIGN.md §5 C13, see §15).",
             "TLA+ state invariant evaluated by TLC at every step of implementation histories", "DESIGN.md §5 C13"),
+    "C19": ("model_checking",
+            "TzdbCache.tla models the zoneinfo database cache with one action per critical section of the code "
+            "(fast path under the zones read lock, name lookup / refresh, slow path under the zones write lock, nested "
+            "reset, file replace/remove/add, clock ticks). TLC explores every interleaving of 2 threads x 2 names "
+            "(thorough: 3 threads) for cache coherence, what a lookup may return, freshness after expiry/reset and lock "
+            "discipline, and progress under fairness. The model is bound to the code in both directions: TLC-generated "
+            "sequential histories are replayed on a real database (returned version and path must match), and recorded "
+            "concurrent executions (hook events sequenced under jiff's locks) must be behaviours of the model.",
+            "Hooks under cfg(jiff_verif): mock monotonic clock, ttl setter, critical-section events. Staleness within the "
+            "ttl is the documented design and is allowed. The concatenated (Android) database is not modelled.",
+            "TLA+ model checking of the cache protocol + behaviour replay + concurrent trace validation", "DESIGN.md §5 C19"),
+    "C20": ("model_checking",
+            "TzHandle.tla models handle slots and reference counted heap objects; TLC checks RcInv / FreeInv / "
+            "NoUseAfterFree / EqLaws over all interleavings of new/clone/drop and generates programs that the harness "
+            "executes on real TimeZone values of every kind, comparing after each step the pointer tag, Arc strong count "
+            "(read-only hook), frees seen by a tracking allocator, equality of all live pairs and query answers; all "
+            "187,199 fixed offsets are enumerated.",
+            "Memory safety proper (a read after free that leaves counts intact) is outside the abstract state; the "
+            "tracking allocator sees frees, not reads. Cross-thread steps are sequential hand-overs (spawn + join), not races.",
+            "TLA+ model checking + TLC-generated programs replayed on the implementation", "DESIGN.md §5 C20"),
 }
 
 PENDING_REASON = "check not built yet in this round (planned, see DESIGN.md §5); no claim is made"
@@ -149,7 +169,7 @@ def main():
 
 
 NA = {}
-HOOK_COMMITS = []
+HOOK_COMMITS = ["4ffbea9", "708978f", "913b738", "0c1e3e2"]
 
 if __name__ == "__main__":
     main()
